@@ -932,18 +932,25 @@ def run(ctx):
         ctx.not_exercised("read-only clauses (chmod u+w gate before open): privileges could not be dropped, every run was made as root")
 
     # ---- spec -> code: model histories
-    ex_cfg, ex_desc = ctx.pick(("GenHistory_ex2", "all 2-run histories over 28 options"), ("GenHistory_ex2t", "all 2-run histories over 56 options"))
+    scale = float(os.environ.get("VERIF_C12_SCALE", "1"))     # development aid only
+    ex_cfg, ex_desc = ctx.pick(("GenHistory_ex2q", "all 2-run histories over 16 options"), ("GenHistory_ex2t", "all 2-run histories over 56 options"))
     hist = [("ex", h) for h in tlc.emit_cases(ctx, "GenHistory", ex_cfg, name=ex_cfg + " (emission)", constants=ex_desc, timeout=1500)]
     if not ctx.quick:
         hist += [("ex3", h) for h in tlc.emit_cases(ctx, "GenHistory", "GenHistory_ex3", name="GenHistory_ex3 (emission)",
                                                    constants="all 3-run histories over 16 options", timeout=1500)]
+    nex = len(hist)
+    if nex != ctx.pick(256, 3136 + 4096):
+        raise MachineryFailure("bounded-exhaustive emission produced %d histories" % nex)
+    if scale < 1:
+        hist = hist[::int(1 / scale)]
     sim_cfg = ctx.pick("GenHistory_sim", "GenHistory_sim6")
-    nsim = ctx.pick(450, 4000)
+    nsim = int(ctx.pick(300, 2500) * scale)
+    # TLC counts only behaviours that reach -depth; ours end (deadlock) after MaxSteps steps, ~40 of them per counted one
     sims = tlc.emit_cases(ctx, "GenHistory", sim_cfg, name=sim_cfg + " (-simulate)", constants="all options, environment actions, 5 paths",
-                          simulate="num=%d" % nsim, depth=400, seed=ctx.seed + 1, timeout=1500)
-    hist += [("sim", h) for h in sims]
-    if len(hist) < ctx.pick(1000, 8000):
-        raise MachineryFailure("too few model histories: %d" % len(hist))
+                          simulate="num=%d" % max(2, nsim // 20), depth=400, seed=ctx.seed + 1, timeout=1500)
+    if len(sims) < nsim:
+        raise MachineryFailure("too few simulated histories: %d < %d" % (len(sims), nsim))
+    hist += [("sim", h) for h in sims[:nsim]]
     stims = []
     for i, (src, h) in enumerate(hist):
         lang = "c" if i % 2 == 0 else "cpp"
@@ -974,7 +981,7 @@ def run(ctx):
     ctx.sample({"direction": "spec->code", "lang": ex["lang"], "steps": ex["steps"], "expected_after_each_run": ex["exp"]})
 
     # ---- code -> spec: scripted + random histories
-    more = scripted() + random_histories(ctx, sb, ctx.pick(160, 2500))
+    more = scripted() + random_histories(ctx, sb, int(ctx.pick(100, 1500) * scale))
     camp.need_fresh([{"lang": l, "ns": n, "copy": c, "via": "inproc", "steps": []} for l in ("c", "cpp", "py") for n in ("small", "big")
                      for c in (False, True) if not (l == "py" and (c or not sb.py_ok))])
     prune_unknown_paths(camp, more)
@@ -1016,7 +1023,7 @@ def run(ctx):
     selftests(ctx, camp)
 
     ctx.cov["rule"] = ("one evaluation = one step (nnvg run or environment action) of a history in one output directory, snapshot after each; "
-                       "spec->code: all 2-run%s histories over an option subset + %d simulated %d-step behaviours of GenHistory.tla (all options, "
+                       "spec->code: all 2-run%s histories over an option subset (16; thorough 56 resp. 16 options) + %d simulated %d-step behaviours of GenHistory.tla (all options, "
                        "Foreign/Chmod/Remove, 5 paths) replayed through nunavut.cli.main() as uid %s (1/%d of the pure-run histories through "
                        "`python -m nunavut` subprocesses as root); code->spec: 32 scripted + seeded random histories (3-9 steps, c/cpp/py, 2 or 5 "
                        "types, 12 modes, 7 content variants incl. --pp-run-program); distinct = (steps, language, namespace) digest; "
